@@ -49,20 +49,20 @@ template <unsigned FMT, size_t PAYLOAD, class T> static inline int prop_fmt(cons
 #define E(name, FMT, P, T) VH_EXPORT int vp_h10e_##name(const unsigned char* in, unsigned char* out) { return prop_fmt<FMT, P, T>(in, out); }
 E(f64_f32, 0xcb, 8, float) E(f64_f64, 0xcb, 8, double) E(f32_f32, 0xca, 4, float) E(f32_f64, 0xca, 4, double) E(f64_i32, 0xcb, 8, int32_t) E(u64_i32, 0xcf, 8, int32_t) E(i64_u8, 0xd3, 8, uint8_t) E(u16_i8, 0xcd, 2, int8_t) E(i32_u64, 0xd2, 4, uint64_t) E(i8_u16, 0xd0, 1, uint16_t) E(u32_i64, 0xce, 4, int64_t) E(u8_bool, 0xcc, 1, bool) E(i16_i16, 0xd1, 2, int16_t) E(u64_f32, 0xcf, 8, float) E(i64_f64, 0xd3, 8, double)
 //@ OBL {"name": "h10e_f64_f32", "prop": "vp_h10e_f64_f32", "in": 17, "out": 24, "unwind": 18, "unwind_models": 18, "mem_gb": 16, "unwind_fn": {"SkipValueImpl": 1}, "recursion": {"SkipValueImpl": 0}, "fs": 32, "cap_s": 900, "backends": ["default"], "bounds": "concrete format byte 0xcb, every payload (8 bytes), both policies, every previous target value; stream reader state = whole document cached, stream at end (eofbit with or without failbit)", "desc": "CMsgPackStreamReader == CMsgPackStringReader for float 64 -> float (overflow policy)"}
-//@ OBL {"name": "h10e_f64_f64", "prop": "vp_h10e_f64_f64", "in": 17, "out": 24, "unwind": 18, "unwind_models": 18, "mem_gb": 16, "unwind_fn": {"SkipValueImpl": 1}, "recursion": {"SkipValueImpl": 0}, "fs": 32, "cap_s": 900, "backends": ["default"], "bounds": "concrete format byte 0xcb, every payload (8 bytes), both policies, every previous target value; stream reader state = whole document cached, stream at end (eofbit with or without failbit)", "desc": "CMsgPackStreamReader == CMsgPackStringReader for float 64 -> double", "tier": "open"}
-//@ OBL {"name": "h10e_f32_f32", "prop": "vp_h10e_f32_f32", "in": 17, "out": 24, "unwind": 18, "unwind_models": 18, "mem_gb": 16, "unwind_fn": {"SkipValueImpl": 1}, "recursion": {"SkipValueImpl": 0}, "fs": 32, "cap_s": 900, "backends": ["default"], "bounds": "concrete format byte 0xca, every payload (4 bytes), both policies, every previous target value; stream reader state = whole document cached, stream at end (eofbit with or without failbit)", "desc": "CMsgPackStreamReader == CMsgPackStringReader for float 32 -> float", "tier": "open"}
+//@ OBL {"name": "h10e_f64_f64", "prop": "vp_h10e_f64_f64", "in": 17, "out": 24, "unwind": 18, "unwind_models": 18, "mem_gb": 16, "unwind_fn": {"SkipValueImpl": 1}, "recursion": {"SkipValueImpl": 0}, "fs": 32, "cap_s": 900, "backends": ["default"], "bounds": "concrete format byte 0xcb, every payload (8 bytes), both policies, every previous target value; stream reader state = whole document cached, stream at end (eofbit with or without failbit)", "desc": "CMsgPackStreamReader == CMsgPackStringReader for float 64 -> double", "tier": "thorough"}
+//@ OBL {"name": "h10e_f32_f32", "prop": "vp_h10e_f32_f32", "in": 17, "out": 24, "unwind": 18, "unwind_models": 18, "mem_gb": 16, "unwind_fn": {"SkipValueImpl": 1}, "recursion": {"SkipValueImpl": 0}, "fs": 32, "cap_s": 900, "backends": ["default"], "bounds": "concrete format byte 0xca, every payload (4 bytes), both policies, every previous target value; stream reader state = whole document cached, stream at end (eofbit with or without failbit)", "desc": "CMsgPackStreamReader == CMsgPackStringReader for float 32 -> float", "tier": "thorough"}
 //@ OBL {"name": "h10e_f32_f64", "prop": "vp_h10e_f32_f64", "in": 17, "out": 24, "unwind": 18, "unwind_models": 18, "mem_gb": 16, "unwind_fn": {"SkipValueImpl": 1}, "recursion": {"SkipValueImpl": 0}, "fs": 32, "cap_s": 900, "backends": ["default"], "bounds": "concrete format byte 0xca, every payload (4 bytes), both policies, every previous target value; stream reader state = whole document cached, stream at end (eofbit with or without failbit)", "desc": "CMsgPackStreamReader == CMsgPackStringReader for float 32 -> double"}
-//@ OBL {"name": "h10e_f64_i32", "prop": "vp_h10e_f64_i32", "in": 17, "out": 24, "unwind": 18, "unwind_models": 18, "mem_gb": 16, "unwind_fn": {"SkipValueImpl": 1}, "recursion": {"SkipValueImpl": 0}, "fs": 32, "cap_s": 900, "backends": ["default"], "bounds": "concrete format byte 0xcb, every payload (8 bytes), both policies, every previous target value; stream reader state = whole document cached, stream at end (eofbit with or without failbit)", "desc": "CMsgPackStreamReader == CMsgPackStringReader for float 64 -> int32_t (mismatch policy)", "tier": "open"}
+//@ OBL {"name": "h10e_f64_i32", "prop": "vp_h10e_f64_i32", "in": 17, "out": 24, "unwind": 18, "unwind_models": 18, "mem_gb": 16, "unwind_fn": {"SkipValueImpl": 1}, "recursion": {"SkipValueImpl": 0}, "fs": 32, "cap_s": 900, "backends": ["default"], "bounds": "concrete format byte 0xcb, every payload (8 bytes), both policies, every previous target value; stream reader state = whole document cached, stream at end (eofbit with or without failbit)", "desc": "CMsgPackStreamReader == CMsgPackStringReader for float 64 -> int32_t (mismatch policy)", "tier": "thorough"}
 //@ OBL {"name": "h10e_u64_i32", "prop": "vp_h10e_u64_i32", "in": 17, "out": 24, "unwind": 18, "unwind_models": 18, "mem_gb": 16, "unwind_fn": {"SkipValueImpl": 1}, "recursion": {"SkipValueImpl": 0}, "fs": 32, "cap_s": 900, "backends": ["default"], "bounds": "concrete format byte 0xcf, every payload (8 bytes), both policies, every previous target value; stream reader state = whole document cached, stream at end (eofbit with or without failbit)", "desc": "CMsgPackStreamReader == CMsgPackStringReader for uint 64 -> int32_t"}
-//@ OBL {"name": "h10e_i64_u8", "prop": "vp_h10e_i64_u8", "in": 17, "out": 24, "unwind": 18, "unwind_models": 18, "mem_gb": 16, "unwind_fn": {"SkipValueImpl": 1}, "recursion": {"SkipValueImpl": 0}, "fs": 32, "cap_s": 900, "backends": ["default"], "bounds": "concrete format byte 0xd3, every payload (8 bytes), both policies, every previous target value; stream reader state = whole document cached, stream at end (eofbit with or without failbit)", "desc": "CMsgPackStreamReader == CMsgPackStringReader for int 64 -> uint8_t", "tier": "open"}
-//@ OBL {"name": "h10e_u16_i8", "prop": "vp_h10e_u16_i8", "in": 17, "out": 24, "unwind": 18, "unwind_models": 18, "mem_gb": 16, "unwind_fn": {"SkipValueImpl": 1}, "recursion": {"SkipValueImpl": 0}, "fs": 32, "cap_s": 900, "backends": ["default"], "bounds": "concrete format byte 0xcd, every payload (2 bytes), both policies, every previous target value; stream reader state = whole document cached, stream at end (eofbit with or without failbit)", "desc": "CMsgPackStreamReader == CMsgPackStringReader for uint 16 -> int8_t", "tier": "open"}
-//@ OBL {"name": "h10e_i32_u64", "prop": "vp_h10e_i32_u64", "in": 17, "out": 24, "unwind": 18, "unwind_models": 18, "mem_gb": 16, "unwind_fn": {"SkipValueImpl": 1}, "recursion": {"SkipValueImpl": 0}, "fs": 32, "cap_s": 900, "backends": ["default"], "bounds": "concrete format byte 0xd2, every payload (4 bytes), both policies, every previous target value; stream reader state = whole document cached, stream at end (eofbit with or without failbit)", "desc": "CMsgPackStreamReader == CMsgPackStringReader for int 32 -> uint64_t", "tier": "open"}
-//@ OBL {"name": "h10e_i8_u16", "prop": "vp_h10e_i8_u16", "in": 17, "out": 24, "unwind": 18, "unwind_models": 18, "mem_gb": 16, "unwind_fn": {"SkipValueImpl": 1}, "recursion": {"SkipValueImpl": 0}, "fs": 32, "cap_s": 900, "backends": ["default"], "bounds": "concrete format byte 0xd0, every payload (1 bytes), both policies, every previous target value; stream reader state = whole document cached, stream at end (eofbit with or without failbit)", "desc": "CMsgPackStreamReader == CMsgPackStringReader for int 8 -> uint16_t", "tier": "open"}
-//@ OBL {"name": "h10e_u32_i64", "prop": "vp_h10e_u32_i64", "in": 17, "out": 24, "unwind": 18, "unwind_models": 18, "mem_gb": 16, "unwind_fn": {"SkipValueImpl": 1}, "recursion": {"SkipValueImpl": 0}, "fs": 32, "cap_s": 900, "backends": ["default"], "bounds": "concrete format byte 0xce, every payload (4 bytes), both policies, every previous target value; stream reader state = whole document cached, stream at end (eofbit with or without failbit)", "desc": "CMsgPackStreamReader == CMsgPackStringReader for uint 32 -> int64_t", "tier": "open"}
-//@ OBL {"name": "h10e_u8_bool", "prop": "vp_h10e_u8_bool", "in": 17, "out": 24, "unwind": 18, "unwind_models": 18, "mem_gb": 16, "unwind_fn": {"SkipValueImpl": 1}, "recursion": {"SkipValueImpl": 0}, "fs": 32, "cap_s": 900, "backends": ["default"], "bounds": "concrete format byte 0xcc, every payload (1 bytes), both policies, every previous target value; stream reader state = whole document cached, stream at end (eofbit with or without failbit)", "desc": "CMsgPackStreamReader == CMsgPackStringReader for uint 8 -> bool", "tier": "open"}
-//@ OBL {"name": "h10e_i16_i16", "prop": "vp_h10e_i16_i16", "in": 17, "out": 24, "unwind": 18, "unwind_models": 18, "mem_gb": 16, "unwind_fn": {"SkipValueImpl": 1}, "recursion": {"SkipValueImpl": 0}, "fs": 32, "cap_s": 900, "backends": ["default"], "bounds": "concrete format byte 0xd1, every payload (2 bytes), both policies, every previous target value; stream reader state = whole document cached, stream at end (eofbit with or without failbit)", "desc": "CMsgPackStreamReader == CMsgPackStringReader for int 16 -> int16_t", "tier": "open"}
-//@ OBL {"name": "h10e_u64_f32", "prop": "vp_h10e_u64_f32", "in": 17, "out": 24, "unwind": 18, "unwind_models": 18, "mem_gb": 16, "unwind_fn": {"SkipValueImpl": 1}, "recursion": {"SkipValueImpl": 0}, "fs": 32, "cap_s": 900, "backends": ["default"], "bounds": "concrete format byte 0xcf, every payload (8 bytes), both policies, every previous target value; stream reader state = whole document cached, stream at end (eofbit with or without failbit)", "desc": "CMsgPackStreamReader == CMsgPackStringReader for uint 64 -> float", "tier": "open"}
-//@ OBL {"name": "h10e_i64_f64", "prop": "vp_h10e_i64_f64", "in": 17, "out": 24, "unwind": 18, "unwind_models": 18, "mem_gb": 16, "unwind_fn": {"SkipValueImpl": 1}, "recursion": {"SkipValueImpl": 0}, "fs": 32, "cap_s": 900, "backends": ["default"], "bounds": "concrete format byte 0xd3, every payload (8 bytes), both policies, every previous target value; stream reader state = whole document cached, stream at end (eofbit with or without failbit)", "desc": "CMsgPackStreamReader == CMsgPackStringReader for int 64 -> double", "tier": "open"}
+//@ OBL {"name": "h10e_i64_u8", "prop": "vp_h10e_i64_u8", "in": 17, "out": 24, "unwind": 18, "unwind_models": 18, "mem_gb": 16, "unwind_fn": {"SkipValueImpl": 1}, "recursion": {"SkipValueImpl": 0}, "fs": 32, "cap_s": 900, "backends": ["default"], "bounds": "concrete format byte 0xd3, every payload (8 bytes), both policies, every previous target value; stream reader state = whole document cached, stream at end (eofbit with or without failbit)", "desc": "CMsgPackStreamReader == CMsgPackStringReader for int 64 -> uint8_t", "tier": "thorough"}
+//@ OBL {"name": "h10e_u16_i8", "prop": "vp_h10e_u16_i8", "in": 17, "out": 24, "unwind": 18, "unwind_models": 18, "mem_gb": 16, "unwind_fn": {"SkipValueImpl": 1}, "recursion": {"SkipValueImpl": 0}, "fs": 32, "cap_s": 900, "backends": ["default"], "bounds": "concrete format byte 0xcd, every payload (2 bytes), both policies, every previous target value; stream reader state = whole document cached, stream at end (eofbit with or without failbit)", "desc": "CMsgPackStreamReader == CMsgPackStringReader for uint 16 -> int8_t", "tier": "thorough"}
+//@ OBL {"name": "h10e_i32_u64", "prop": "vp_h10e_i32_u64", "in": 17, "out": 24, "unwind": 18, "unwind_models": 18, "mem_gb": 16, "unwind_fn": {"SkipValueImpl": 1}, "recursion": {"SkipValueImpl": 0}, "fs": 32, "cap_s": 900, "backends": ["default"], "bounds": "concrete format byte 0xd2, every payload (4 bytes), both policies, every previous target value; stream reader state = whole document cached, stream at end (eofbit with or without failbit)", "desc": "CMsgPackStreamReader == CMsgPackStringReader for int 32 -> uint64_t", "tier": "thorough"}
+//@ OBL {"name": "h10e_i8_u16", "prop": "vp_h10e_i8_u16", "in": 17, "out": 24, "unwind": 18, "unwind_models": 18, "mem_gb": 16, "unwind_fn": {"SkipValueImpl": 1}, "recursion": {"SkipValueImpl": 0}, "fs": 32, "cap_s": 900, "backends": ["default"], "bounds": "concrete format byte 0xd0, every payload (1 bytes), both policies, every previous target value; stream reader state = whole document cached, stream at end (eofbit with or without failbit)", "desc": "CMsgPackStreamReader == CMsgPackStringReader for int 8 -> uint16_t", "tier": "thorough"}
+//@ OBL {"name": "h10e_u32_i64", "prop": "vp_h10e_u32_i64", "in": 17, "out": 24, "unwind": 18, "unwind_models": 18, "mem_gb": 16, "unwind_fn": {"SkipValueImpl": 1}, "recursion": {"SkipValueImpl": 0}, "fs": 32, "cap_s": 900, "backends": ["default"], "bounds": "concrete format byte 0xce, every payload (4 bytes), both policies, every previous target value; stream reader state = whole document cached, stream at end (eofbit with or without failbit)", "desc": "CMsgPackStreamReader == CMsgPackStringReader for uint 32 -> int64_t", "tier": "thorough"}
+//@ OBL {"name": "h10e_u8_bool", "prop": "vp_h10e_u8_bool", "in": 17, "out": 24, "unwind": 18, "unwind_models": 18, "mem_gb": 16, "unwind_fn": {"SkipValueImpl": 1}, "recursion": {"SkipValueImpl": 0}, "fs": 32, "cap_s": 900, "backends": ["default"], "bounds": "concrete format byte 0xcc, every payload (1 bytes), both policies, every previous target value; stream reader state = whole document cached, stream at end (eofbit with or without failbit)", "desc": "CMsgPackStreamReader == CMsgPackStringReader for uint 8 -> bool", "tier": "thorough"}
+//@ OBL {"name": "h10e_i16_i16", "prop": "vp_h10e_i16_i16", "in": 17, "out": 24, "unwind": 18, "unwind_models": 18, "mem_gb": 16, "unwind_fn": {"SkipValueImpl": 1}, "recursion": {"SkipValueImpl": 0}, "fs": 32, "cap_s": 900, "backends": ["default"], "bounds": "concrete format byte 0xd1, every payload (2 bytes), both policies, every previous target value; stream reader state = whole document cached, stream at end (eofbit with or without failbit)", "desc": "CMsgPackStreamReader == CMsgPackStringReader for int 16 -> int16_t", "tier": "thorough"}
+//@ OBL {"name": "h10e_u64_f32", "prop": "vp_h10e_u64_f32", "in": 17, "out": 24, "unwind": 18, "unwind_models": 18, "mem_gb": 16, "unwind_fn": {"SkipValueImpl": 1}, "recursion": {"SkipValueImpl": 0}, "fs": 32, "cap_s": 900, "backends": ["default"], "bounds": "concrete format byte 0xcf, every payload (8 bytes), both policies, every previous target value; stream reader state = whole document cached, stream at end (eofbit with or without failbit)", "desc": "CMsgPackStreamReader == CMsgPackStringReader for uint 64 -> float", "tier": "thorough"}
+//@ OBL {"name": "h10e_i64_f64", "prop": "vp_h10e_i64_f64", "in": 17, "out": 24, "unwind": 18, "unwind_models": 18, "mem_gb": 16, "unwind_fn": {"SkipValueImpl": 1}, "recursion": {"SkipValueImpl": 0}, "fs": 32, "cap_s": 900, "backends": ["default"], "bounds": "concrete format byte 0xd3, every payload (8 bytes), both policies, every previous target value; stream reader state = whole document cached, stream at end (eofbit with or without failbit)", "desc": "CMsgPackStreamReader == CMsgPackStringReader for int 64 -> double", "tier": "thorough"}
 //@ VEC * 007fefffffffffffff0000000000000000
 //@ VEC * 0300000000000000011122334455667788
 //@ VEC * 0647efffffe00000001122334455667788
